@@ -256,7 +256,7 @@ _SCALAR = f"akey(cur) in needed and is_none(arow(needed, cur).type_class) and no
 _LISTV = f"akey(cur) in needed and is_none(arow(needed, cur).type_class) and is_list_attr(obj, {_A})"
 _GRPS = f"akey(cur) in needed and not is_none(arow(needed, cur).type_class) and not is_list_attr(obj, {_A})"
 _GRPL = f"akey(cur) in needed and not is_none(arow(needed, cur).type_class) and is_list_attr(obj, {_A})"
-_L = f"prev(gen_tok(obj, {_A}))"
+_L = f"gen_tok(obj, {_A})"      # the list the attribute holds after the step (in place or a new one: both conform)
 R.loop("assign_attr_from_defs", 0,
        ghost={"nm": "str"},
        invariants=[("lists-older-than-the-container-are-untouched",
@@ -434,7 +434,7 @@ R.kind_hints[("UndefinedMessage._assign_attr_values", "[1]")] = "List[Any]"
 _N = "undef_name(cur)"
 _ISL = f"gen_has(parent, {_N}) and not gen_none(parent, {_N}) and gen_is_list(parent, {_N})"
 _T = f"gen_tok(parent, {_N})"
-_PL = f"prev({_T})"
+_PL = _T                     # the list the attribute holds after the step (in place or a new one: both conform)
 _VAL = ("ite(isinstance(cur, AvpGrouped), tok_type_is(X, 'UndefinedGroupedAvp') and tok_new(X, prev(frontier())), "
         "X == prev(value_tok(cur)))")
 R.contract("UndefinedMessage._assign_attr_values",
@@ -465,7 +465,7 @@ R.loop("UndefinedMessage._assign_attr_values", 0,
               f"implies(prev(not gen_has(parent, {_N})), gen_has(parent, {_N}) and not gen_none(parent, {_N}) and "
               + _VAL.replace("X", _T) + ")"),
              ("a-repeated-avp-is-appended-at-the-end-of-the-attributes-list",
-              f"implies(prev({_ISL}), {_T} == {_PL} and len(tok_items({_PL})) == prev(len(tok_items({_T}))) + 1 and "
+              f"implies(prev({_ISL}), gen_has(parent, {_N}) and not gen_none(parent, {_N}) and len(tok_items({_PL})) == prev(len(tok_items({_T}))) + 1 and "
               f"tok_items({_PL})[0:len(tok_items({_PL})) - 1] == prev(tok_items({_T})) and "
               + _VAL.replace("X", f"tok_items({_PL})[len(tok_items({_PL})) - 1]") + ")"),
              ("a-second-occurrence-turns-the-attribute-into-the-list-of-both-values-in-wire-order",
